@@ -9,6 +9,13 @@ Import RangeSound.
 Open Scope string_scope.
 Open Scope Z_scope.
 
+(* concretisation: every variable's word is a member (RangeSound.mem) of its range *)
+Definition gamma (e : aenv) (c : cenv) : Prop := forall x, mem (c x) (aget e x).
+Definition wfenv (e : aenv) : Prop := forall x, wf (aget e x).
+
+Lemma word_op_eq op : RangeFix.word_op op = RangeOp.word_op op.
+Proof. reflexivity. Qed.
+
 Arguments mem : simpl nomatch.
 Arguments wf : simpl nomatch.
 
@@ -101,11 +108,11 @@ Qed.
 Lemma w_xor_self a : w_xor a a = 0.
 Proof. unfold w_xor. apply Z.lxor_nilpotent. Qed.
 
-Lemma eval_op_use op w A B a b r : word_op op = Some w ->
+Lemma eval_op_use op w A B a b r : RangeFix.word_op op = Some w ->
   wf A -> wf B -> 0 <= a < W -> 0 <= b < W -> mem a A -> mem b B ->
   GenRange.eval_op op A B = Ok r -> mem (w a b) r.
 Proof.
-  intros Hw WA WB Ia Ib MA MB E.
+  intros Hw WA WB Ia Ib MA MB E. rewrite word_op_eq in Hw.
   pose proof (eval_op_sound op w A B a b Hw WA WB Ia Ib MA MB) as S.
   rewrite E in S. tauto.
 Qed.
